@@ -88,6 +88,10 @@ TShape == /\ IsEvent("Shape")
           /\ Expect(BT!BalancedOK(E.pages), "leaves of one bucket are on different levels")
           /\ Expect(BT!RootOK(E.pages) /\ BT!LeafOK(E.pages) /\ BT!BranchOK(E.pages), "empty non-root leaf, or branch page with fewer than two children")
           /\ Expect(BT!InlineOK(E.buckets, E.ps), "an inline bucket holds nested buckets or is larger than a quarter page")
+          \* Bucket.Stats() of every top-level bucket, as reported by the real code, is the function of the shape BTree.tla defines
+          /\ \A i \in 1..Len(E.stats) :
+                LET want == BT!StatsOf(E.pages, E.buckets, E.ps, E.stats[i].id) IN
+                Expect(\A f \in DOMAIN want : E.stats[i][f] = want[f], <<"Bucket.Stats differs from the tree; specification says", want, "reported", E.stats[i]>>)
 
 EInit == l = 1
 ENext == TFile \/ TMetas \/ TGraph \/ TSurgery \/ TShape
